@@ -513,8 +513,10 @@ def r_reg_pair(ck: Checker) -> None:
 def r_detach_all(ck: Checker) -> None:
     f = ck.repo.func(NODE, "ASTNode.detach")
     fn = f.node
+    from ..normalize import resolve_path
+    top = resolve_path([st for st in fn.body if not isinstance(st, (ast.For, ast.While))])
     self_removed = any(isinstance(c, ast.Call) and dotted(c.func) == "_unregister" and c.args and norm(c.args[0]) == "self"
-                       for st in fn.body if not isinstance(st, (ast.For, ast.While)) for c in walk_local(st))
+                       for st in top for c in walk_local(st))
     what = "detach unregisters the node itself"
     (ck.holds if self_removed else ck.violation)("R-DETACH-ALL", f, fn, what, **({} if self_removed else {"construct": "detach: self is not unregistered"}))
     loops = [st for st in fn.body if isinstance(st, ast.For)]
@@ -524,7 +526,7 @@ def r_detach_all(ck: Checker) -> None:
     for lp in loops:
         owner = full_traversal(lp.iter)
         tgt = norm(lp.target)
-        removes = [c for c in walk_body(lp.body) if isinstance(c, ast.Call) and dotted(c.func) == "_unregister" and c.args and norm(c.args[0]) == f"{tgt}.node"]
+        removes = [c for c in walk_body(resolve_path(lp.body)) if isinstance(c, ast.Call) and dotted(c.func) == "_unregister" and c.args and norm(c.args[0]) == f"{tgt}.node"]
         if owner == "self" and removes and not any(isinstance(x, (ast.Break, ast.Continue, ast.Return, ast.If)) for x in walk_body(lp.body)):
             ok = True
         else:
